@@ -22,4 +22,42 @@ CHECKS = {
                         "grey zones admitted by Spec.Range: `+`-signed numbers, numbers > 2^63-1, reversed range whose first position is beyond the end, first position beyond the end followed by a malformed tail"],
         "timeout_quick": 600, "timeout_thorough": 3000,
     },
+    "C15": {
+        "lean_props": ["Vgw.Props.C15"],
+        "harness": "c15",
+        "trusted": ["Model.Gw (gateway model: state, access decisions, step) is hand-written; tied to the code by differential runs of generated request programs against real gateway processes built from /repo (every answer canonicalised and compared; server-chosen version/upload ids are passed to the model as inputs)", "a byte-exact snapshot of the storage directories (data, modes, xattrs) is the model-independent oracle for 'nothing changed'"],
+        "modelled": ["s3api/server.go middleware order (authentication → ACL parser → handler)", "s3api/middlewares/acl-parser.go", "auth/acl.go VerifyAccess/verifyACL/VerifyObjectCopyAccess/IsAdminOrOwner/MayCreateBucket", "auth/bucket_policy*.go evaluation (isAllowed, FindMatch, Contains)", "s3api/controllers/base.go branches of the modelled operations", "backend/posix/posix.go methods of the modelled operations, abstracted to buckets → keys → version stacks"],
+        "not_modelled": ["SigV4 canonicalisation and HMAC (the outcome of verification is the Caller of a request)", "encoding/xml, encoding/json decoding", "fasthttp/fiber routing and header parsing", "Azure, ScoutFS and s3proxy backends", "metrics, audit logs"] + ["multipart, object-lock and admin operations are not yet in the model vocabulary of this check"],
+        "assumptions": ["admin API (account management) is not an S3 API request and is outside C15"],
+        "timeout_quick": 900, "timeout_thorough": 3400,
+    },
+    "C03": {
+        "lean_props": ["Vgw.Props.C03"],
+        "harness": "c03",
+        "trusted": ["Model.Gw (gateway model: state, access decisions, step) is hand-written; tied to the code by differential runs of generated request programs against real gateway processes built from /repo (every answer canonicalised and compared; server-chosen version/upload ids are passed to the model as inputs)", "Props.C03.required is the specification table (operation → S3 action on the exact resource)"],
+        "modelled": ["s3api/server.go middleware order (authentication → ACL parser → handler)", "s3api/middlewares/acl-parser.go", "auth/acl.go VerifyAccess/verifyACL/VerifyObjectCopyAccess/IsAdminOrOwner/MayCreateBucket", "auth/bucket_policy*.go evaluation (isAllowed, FindMatch, Contains)", "s3api/controllers/base.go branches of the modelled operations", "backend/posix/posix.go methods of the modelled operations, abstracted to buckets → keys → version stacks"],
+        "not_modelled": ["SigV4 canonicalisation and HMAC (the outcome of verification is the Caller of a request)", "encoding/xml, encoding/json decoding", "fasthttp/fiber routing and header parsing", "Azure, ScoutFS and s3proxy backends", "metrics, audit logs"] + ["object ACLs (not implemented by the gateway)", "versions as targets, multipart operations: not yet in this check's vocabulary"],
+        "assumptions": ["root and admin-role accounts are exempt from policy/ACL by design (the property is about non-admin accounts)"],
+        "timeout_quick": 900, "timeout_thorough": 3400,
+    },
+    "C02": {
+        "lean_props": ["Vgw.Props.C02"],
+        "harness": "c02",
+        "trusted": ["Model.Gw (gateway model: state, access decisions, step) is hand-written; tied to the code by differential runs of generated request programs against real gateway processes built from /repo (every answer canonicalised and compared; server-chosen version/upload ids are passed to the model as inputs)", "byte-exact snapshot of storage, versioning and IAM directories as the oracle for 'changes nothing'; canary object content as the oracle for 'returns no stored data'",
+                    "the harness's own SigV4 signer (harness/gw/client.go) produces the valid requests the defects are injected into"],
+        "modelled": ["s3api/server.go middleware order (authentication → ACL parser → handler)", "s3api/middlewares/acl-parser.go", "auth/acl.go VerifyAccess/verifyACL/VerifyObjectCopyAccess/IsAdminOrOwner/MayCreateBucket", "auth/bucket_policy*.go evaluation (isAllowed, FindMatch, Contains)", "s3api/controllers/base.go branches of the modelled operations", "backend/posix/posix.go methods of the modelled operations, abstracted to buckets → keys → version stacks"],
+        "not_modelled": ["SigV4 canonicalisation and HMAC (the outcome of verification is the Caller of a request)", "encoding/xml, encoding/json decoding", "fasthttp/fiber routing and header parsing", "Azure, ScoutFS and s3proxy backends", "metrics, audit logs"] + ["the theorem is about the model's Caller abstraction; the middleware chain itself is covered by the exhaustive shape probe only"],
+        "assumptions": ["a credential defect = the property's list: missing/malformed authorization, unknown key, wrong secret, altered signature / signed header / query / path / declared payload, date ±1h, wrong region, expired or modified presigned URL",
+                        "an extra header that was never signed, and a body mutated under UNSIGNED-PAYLOAD / streaming modes on requests whose handler ignores the body, are not counted as defects (the signature does not cover them)"],
+        "timeout_quick": 900, "timeout_thorough": 3400,
+    },
+    "C01": {
+        "lean_props": ["Vgw.Props.C01"],
+        "harness": "c01",
+        "trusted": ["Model.Gw (gateway model: state, access decisions, step) is hand-written; tied to the code by differential runs of generated request programs against real gateway processes built from /repo (every answer canonicalised and compared; server-chosen version/upload ids are passed to the model as inputs)", "ETag = MD5 is an environment input of the model: the harness computes MD5 over the body it sent and hands it to the model; the implementation's ETag is compared with it"],
+        "modelled": ["s3api/server.go middleware order (authentication → ACL parser → handler)", "s3api/middlewares/acl-parser.go", "auth/acl.go VerifyAccess/verifyACL/VerifyObjectCopyAccess/IsAdminOrOwner/MayCreateBucket", "auth/bucket_policy*.go evaluation (isAllowed, FindMatch, Contains)", "s3api/controllers/base.go branches of the modelled operations", "backend/posix/posix.go methods of the modelled operations, abstracted to buckets → keys → version stacks"],
+        "not_modelled": ["SigV4 canonicalisation and HMAC (the outcome of verification is the Caller of a request)", "encoding/xml, encoding/json decoding", "fasthttp/fiber routing and header parsing", "Azure, ScoutFS and s3proxy backends", "metrics, audit logs"] + ["multipart completion (C08) and listings (C07) are separate checks", "bodies above 70 kB are not exercised by the correspondence"],
+        "assumptions": ["keys are valid UTF-8 without empty, `.` or `..` segments and with segments ≤ 255 bytes"],
+        "timeout_quick": 900, "timeout_thorough": 3400,
+    },
 }
